@@ -639,6 +639,7 @@ func (g *Gen) NodeOf(kind string, depth int) *Node {
 			// one schema object used for two fields
 			i, j := 0, 1+r.Intn(len(n.Fields)-1)
 			n.Fields[j].S = n.Fields[i].S
+			n.Fields[j].Alt = r.P(2, 3)
 		}
 		if !g.NoExtra && r.P(30, 100) {
 			n.Extra = []string{"Zextra"}
